@@ -84,6 +84,11 @@ pub trait Emu {
     fn call(&mut self, _offset: usize) -> u8 {
         unimplemented!()
     }
+    /// like `call`, but entered through a shim that plants sentinel values in the
+    /// host's callee-saved registers and checks them, and the stack pointer, afterwards
+    fn call_checked(&mut self, _offset: usize) -> (u8, Option<String>) {
+        unimplemented!()
+    }
     fn cache_reset(&mut self) {}
     fn cache_used(&self) -> usize {
         0
@@ -393,6 +398,13 @@ macro_rules! machine_impl {
             let core = &mut *self.core;
             core.cache.call(offset, &mut core.registers)
         }
+        fn call_checked(&mut self, offset: usize) -> (u8, Option<String>) {
+            let core = &mut *self.core;
+            let (prologue, epilogue) = core.cache.verif_entry_points();
+            let block = core.cache.get_memory_start_address() + offset;
+            let regs = &mut core.registers as *mut _ as *mut u8;
+            unsafe { crate::mach::call_with_sentinels(prologue, regs, block, epilogue) }
+        }
         fn cache_reset(&mut self) {
             self.core.cache = $k::cache::CodeCache::new();
         }
@@ -460,4 +472,54 @@ pub fn digest(a: &dyn Emu, skip: &[&str]) -> u64 {
         h = crate::engine::hash_bytes(h, x);
     }
     h
+}
+
+/// in: [0..6] sentinels for rbx, rbp, r12, r13, r14, r15; out: [6] rsp after the
+/// call, [7] rsp at the call site, [8] rsp to restore, [9..15] the six registers after
+#[no_mangle]
+static mut GBCHECK_SENTINELS: [u64; 16] = [0; 16];
+
+/// Enter translated code the way `CodeCache::call` does (prologue(registers,
+/// block, epilogue) in the sysv64 convention), but from a shim that owns every
+/// callee-saved host register: it loads known values into them, calls, and
+/// records what came back. The shim restores its own registers and stack pointer
+/// from memory, so even an unbalanced callee returns control here.
+pub unsafe fn call_with_sentinels(prologue: usize, regs: *mut u8, block: usize, epilogue: usize) -> (u8, Option<String>) {
+    let want: [u64; 6] = [0x1111_2222_3333_4444, 0x5555_6666_7777_8888, 0x9999_aaaa_bbbb_cccc, 0xdddd_eeee_ffff_0001, 0x0f1e_2d3c_4b5a_6978, 0x8877_6655_4433_2211];
+    let p = std::ptr::addr_of_mut!(GBCHECK_SENTINELS) as *mut u64;
+    for k in 0..6 {
+        *p.add(k) = want[k];
+    }
+    let status: u64;
+    core::arch::asm!(
+        "push rbx", "push rbp", "push r12", "push r13", "push r14", "push r15",
+        "lea rcx, [rip + {sent}]",
+        "mov [rcx + 64], rsp",
+        "and rsp, -16",
+        "mov [rcx + 56], rsp",
+        "mov rbx, [rcx]", "mov rbp, [rcx + 8]", "mov r12, [rcx + 16]", "mov r13, [rcx + 24]", "mov r14, [rcx + 32]", "mov r15, [rcx + 40]",
+        "call r8",
+        "lea rcx, [rip + {sent}]",
+        "mov [rcx + 48], rsp",
+        "mov [rcx + 72], rbx", "mov [rcx + 80], rbp", "mov [rcx + 88], r12", "mov [rcx + 96], r13", "mov [rcx + 104], r14", "mov [rcx + 112], r15",
+        "mov rsp, [rcx + 64]",
+        "pop r15", "pop r14", "pop r13", "pop r12", "pop rbp", "pop rbx",
+        sent = sym GBCHECK_SENTINELS,
+        in("rdi") regs, in("rsi") block, in("rdx") epilogue, in("r8") prologue,
+        lateout("rax") status,
+        clobber_abi("sysv64"),
+    );
+    let names = ["rbx", "rbp", "r12", "r13", "r14", "r15"];
+    let mut problem = None;
+    for k in 0..6 {
+        let got = *p.add(9 + k);
+        if got != want[k] {
+            problem = Some(format!("host register {} was not preserved by the translated call: {:#018x} on entry, {:#018x} on return", names[k], want[k], got));
+            break;
+        }
+    }
+    if problem.is_none() && *p.add(6) != *p.add(7) {
+        problem = Some(format!("host stack pointer not restored by the translated call: {:#x} at the call, {:#x} on return", *p.add(7), *p.add(6)));
+    }
+    (status as u8, problem)
 }
